@@ -29,6 +29,19 @@ CHECKS = {
     },
 }
 
+CHECKS["C05"] = {
+    "text": "Proof (Coq) over Record.add_attributes: the attribute loop keeps every record in normal form whether it "
+            "returns or raises (induction over the argument list), a second different formal value is refused and the "
+            "record unchanged, the same value is a no-op, other attributes accumulate as sets, typed literals of "
+            "xsd:int/long (every integer, via DecimalString), string, anyURI, boolean and double (under the float oracle "
+            "law) are stored like plain values; xsd:dateTime round trip is only checked on samples (partial). Tie: "
+            "extracted model vs implementation on API programs (all 18 kinds, factories read from the AST, every argument "
+            "representation), full state compared after every call; direct oracle on the implementation: normal form, "
+            "no replaced/lost values after every call, entry-path table.",
+    "design_ref": "DESIGN.md §5 C05, §10",
+    "technique": "Coq proof by induction over the attribute list + differential correspondence on API programs",
+}
+
 NOT_YET = {}
 
 
